@@ -161,6 +161,8 @@ def canon(system, hierarchy_only: bool) -> Dict[str, Any]:
             e["kind"] = o.kind.name if o.kind else None
             e["doc"] = o.docstring
             e["parent"] = o.parent.fullName() if o.parent else None
+            if isinstance(o, model.Inheritable):
+                e["docsources"] = [x.fullName() for x in o.docsources()]
         if e or not hierarchy_only:
             res[k] = e
     return res
@@ -234,7 +236,7 @@ def diff_sig(a: Dict[str, Any], b: Dict[str, Any], moved: set = frozenset()) -> 
         return "objects-differ", f"documented under one order only: {d[:4]}"
     for k in a:
         if a[k] != b[k]:
-            for f in ("bases", "mro", "kind", "doc", "parent", "cls"):
+            for f in ("bases", "mro", "kind", "doc", "parent", "cls", "docsources"):
                 if a[k].get(f) != b[k].get(f):
                     if f == "bases" and len(a[k][f]) == len(b[k][f]):
                         # a base that is unresolved in one order and a moved (re-exported) object in the other
@@ -277,11 +279,92 @@ def submodule_scenario(rng) -> List[Unit]:
     return units
 
 
+EXTERNAL_BASES = ["Exception", "OSError", "ValueError", "object", "dict", "KeyError"]
+
+
+def hierarchy_scenario(rng) -> List[Unit]:
+    """class hierarchies spread over modules that reach one another through PLAIN imports (`import m`, `import p.m as a`:
+    these do not make pydoctor analyse the target first, so a subclass can be registered before its base), mixed with
+    from-imports; external bases (exception kinds), diamonds, class bodies that bind a name equal to the module a base
+    comes from, and attributes that are instance variables at the top of a chain and class variables below"""
+    Q = "'" * 3
+    inpkg = rng.random() < 0.5
+    n = rng.choice([2, 3, 3, 4])
+    names = rng.sample(["alpha", "beta", "errors", "gamma", "zeta", "core"], n)
+    q = (lambda m: "hp." + m) if inpkg else (lambda m: m)
+    classes: List[Tuple[int, str, bool]] = []       # (module index, class name, has ivar `title`)
+    units: List[Unit] = []
+    cn = 0
+    attr = "title"
+    for i, m in enumerate(names):
+        lines: List[str] = [Q + "module %s" % m + Q]
+        imported: Dict[int, str] = {}                # module index -> expression prefix usable for its classes
+        body: List[str] = []
+        for _ in range(rng.choice([1, 1, 2])):
+            cn += 1
+            cname = "K%d" % cn
+            bases: List[str] = []
+            shadow: List[str] = []
+            prev = [c for c in classes if c[0] < i]
+            same = [c for c in classes if c[0] == i]
+            k = rng.choice([0, 1, 1, 1, 2]) if prev else 0
+            chosen = rng.sample(prev, min(k, len(prev)))
+            # keep the linearisation consistent: never list a class after one of its own subclasses
+            chosen.sort(key=lambda c: -classes.index(c))
+            for (mi, bn, _iv) in chosen:
+                if mi not in imported:
+                    form = rng.choice(["import", "import", "import_as", "from"])
+                    tq = q(names[mi])
+                    if form == "import":
+                        lines.append("import " + tq)
+                        imported[mi] = tq
+                    elif form == "import_as":
+                        lines.append("import %s as %s_" % (tq, names[mi]))
+                        imported[mi] = names[mi] + "_"
+                    else:
+                        imported[mi] = ""
+                if imported[mi] == "":
+                    if ("from %s import %s" % (q(names[mi]), bn)) not in lines:
+                        lines.append("from %s import %s" % (q(names[mi]), bn))
+                    bases.append(bn)
+                else:
+                    bases.append(imported[mi] + "." + bn)
+                    if rng.random() < 0.4:
+                        shadow.append(imported[mi].split(".")[0])
+            if same and not chosen and rng.random() < 0.4:
+                bases.append(rng.choice(same)[1])
+            if rng.random() < (0.6 if not bases else 0.15):
+                bases.append(rng.choice(EXTERNAL_BASES))
+            body.append("class %s%s:" % (cname, "(%s)" % ", ".join(bases) if bases else ""))
+            if rng.random() < 0.6:
+                body.append("    " + Q + "doc of %s" % cname + Q)
+            iv = False
+            r = rng.random()
+            if r < 0.35:
+                body += ["    def __init__(self):", "        self.%s = None" % attr, "        " + Q + "the %s" % attr + Q]
+                iv = True
+            elif r < 0.8:
+                body.append("    %s = %r" % (attr, cname))
+            for sh in shadow:
+                body.append("    %s = []" % sh)
+            if rng.random() < 0.5:
+                body += ["    def describe(self):", ("        " + Q + "describe %s" % cname + Q) if rng.random() < 0.5 else "        pass"]
+            if body[-1].startswith("class "):
+                body.append("    pass")
+            classes.append((i, cname, iv))
+        units.append(Unit(q(m), False, "\n".join(lines + body) + "\n", "hp" if inpkg else None))
+    rng.shuffle(units)
+    if inpkg:
+        units.insert(0, Unit("hp", True, Q + "package" + Q + "\n", None))
+    return units
+
+
 def run(ctx: Ctx) -> None:
     from .c07 import gen_project as reexport_project
     nproj = 200 if ctx.quick else 2500
     limit = 24 if ctx.quick else 120
     reqs, impls, pay = [], [], []
+    pending: List[Tuple[int, str, Dict[str, Any], str]] = []    # order-dependence reports, filed once the project is done
     for i in range(nproj):
         if i % 4 == 3:
             # the re-export scenarios of C07 (single re-exporter, consumers of definer / re-exporter)
@@ -290,6 +373,9 @@ def run(ctx: Ctx) -> None:
         elif i % 8 == 5:
             units = submodule_scenario(ctx.rng)
             ctx.count("projects:submodule-reexport-scenario")
+        elif i % 8 in (1, 6):
+            units = hierarchy_scenario(ctx.rng)
+            ctx.count("projects:plain-import-hierarchy-scenario")
         else:
             g = Gen(ctx.rng, Knobs(max_modules=5 if ctx.quick else 7, reexport=0.3, star=0.25, single_reexporter=True))
             units = g.project()
@@ -316,6 +402,7 @@ def run(ctx: Ctx) -> None:
         cyc = has_cycle(units, imports)
         ords = valid_orders(units, ctx.rng, limit)
         ref = None
+        inh_cyc = False
         reexp = any("__all__" in u.source and "import" in u.source for u in units)
         for od in ords:
             rec = SchedRec()
@@ -349,9 +436,13 @@ def run(ctx: Ctx) -> None:
             if cyc and star_in_cycle(units, imports):
                 ctx.count("oracle-skipped:star-import-inside-cycle")
                 continue
-            if inheritance_cycle(s):
+            if inh_cyc or inheritance_cycle(s):
                 # class D(K) ... class K(D): not a Python program (NameError on import); what pydoctor makes of it
-                # depends on which class it meets first
+                # depends on which class it meets first.  The cycle may be visible under SOME orders only (under the
+                # others one of its bases stays unresolved), so one order showing it takes the project out.
+                if not inh_cyc:
+                    inh_cyc = True
+                    pending = [pf for pf in pending if pf[0] != i]
                 ctx.count("oracle-skipped:cyclic-inheritance")
                 continue
             c = canon(s, hierarchy_only=cyc)
@@ -365,8 +456,10 @@ def run(ctx: Ctx) -> None:
                 if sig == "moved-base-unresolved":
                     tag = "reexport"
                     sig = "bases-differs"
-                ctx.fail("order-dependent:%s:%s" % (tag, sig), {"units": src, "order": od, "reference_order": ref[0]},
-                         f"orders {ref[0]} and {od}: {what}")
+                pending.append((i, "order-dependent:%s:%s" % (tag, sig), {"units": src, "order": od, "reference_order": ref[0]},
+                                f"orders {ref[0]} and {od}: {what}"))
+    for _i, sig, inp, what in pending:
+        ctx.fail(sig, inp, what)
     if ctx.model_ok and reqs:
         outs = ctx.driver.run_parallel(reqs)
         for rq, mo, io_, p in zip(reqs, outs, impls, pay):
